@@ -108,10 +108,38 @@ fn oversized_aspa(customer: u32, providers: &[u32]) -> Payload {
     match pdu {
         Ok(Ok(Some(pdu))) => match pdu.to_payload() {
             Ok((_, p)) => p,
-            Err(_) => crate::common::harness_fail("oversized ASPA PDU refused by to_payload"),
+            Err(_) => crate::common::harness_fail("oversized ASPA PDU refused by to_payload although oversized_supported() said yes"),
         },
-        _ => crate::common::harness_fail("oversized ASPA PDU not readable"),
+        _ => crate::common::harness_fail("oversized ASPA PDU not readable although oversized_supported() said yes"),
     }
+}
+
+/// Do the library's readers accept an ASPA PDU with more providers than its
+/// own constructor allows? A library that refuses such a PDU is within the
+/// statements (C07: reading it "may succeed or fail"); then no application can
+/// hold such a record and the universes stay at the constructor's maximum.
+pub fn oversized_supported() -> bool {
+    static CACHE: std::sync::OnceLock<bool> = std::sync::OnceLock::new();
+    *CACHE.get_or_init(|| {
+        use futures_util::FutureExt;
+        let n = ProviderAsns::MAX_COUNT + 1;
+        let mut bytes = Vec::with_capacity(12 + 4 * n);
+        bytes.extend_from_slice(&[2, 11, 1, 0]);
+        bytes.extend_from_slice(&((12 + 4 * n) as u32).to_be_bytes());
+        bytes.extend_from_slice(&65000u32.to_be_bytes());
+        for p in 0..n as u32 {
+            bytes.extend_from_slice(&p.to_be_bytes());
+        }
+        let mut rd: &[u8] = &bytes;
+        let res = std::panic::catch_unwind(std::panic::AssertUnwindSafe(|| {
+            match rpki::rtr::pdu::Payload::read(&mut rd).now_or_never() {
+                Some(Ok(Ok(Some(pdu)))) => pdu.to_payload().is_ok(),
+                _ => false,
+            }
+        }));
+        let _ = crate::exec::take_panics();
+        res.unwrap_or(false)
+    })
 }
 
 pub fn from_payload(p: &Payload) -> (Key, Vec<u32>) {
@@ -251,9 +279,10 @@ impl Universe {
         // rarely: a record a relay picked up from another cache with more
         // providers than the library's own constructor accepts
         if n_aspa > 0 && t.chance(1, 24) {
-            let n = 16381 + t.choose(3000) as u32;
+            let extra = t.choose(3000) as u32;
+            let n = if oversized_supported() { 16381 + extra } else { ProviderAsns::MAX_COUNT as u32 };
             provider_sets.push((0..n).map(|i| 100_000 + i).collect());
-            provider_sets.push((0..n).map(|i| 100_000 + i).collect());
+            provider_sets.push((0..n).map(|i| 300_000 + 2 * i).collect());
         }
         Universe { keys, provider_sets, big }
     }
